@@ -112,4 +112,48 @@ example : fromStr [⟨0, [[97]]⟩, ⟨1, [[98], [97]]⟩] [97] false = some 0 :
 example : extract ⟨.vecVec, .occ, false, false, true, false, .append, .none, false, false⟩ (store (.vecVec [[[1], [2]], [[3]]])) =
     .ok (.vecVec [[[1], [2]], [[3]]]) := by rfl
 
+/-! #### `Option<subcommand>` fields under update -/
+
+/-- **an update line without a subcommand leaves an `Option<subcommand>` field alone** - whether it is `Some` or
+`None` (the `None` case is the repaired F28: it used to be `MissingSubcommand`) -/
+theorem optsub_update_without_subcommand (schema : Bytes → List Bytes) (cur : Option SubVal) :
+    updateOptSub schema cur none = .ok cur := by
+  cases cur <;> simp [updateOptSub, optSubBuildsOnlyWhenNamed]
+
+theorem lookup_mergeSub (v : SubVal) (l : SubLine) (f : Bytes) (x : Option Bytes) (h : (f, x) ∈ v.fields)
+    (hn : lookupGiven l f = none) : (f, x) ∈ (mergeSub v l).fields := by
+  unfold mergeSub
+  simp only [List.mem_map]
+  exact ⟨(f, x), h, by simp [hn]⟩
+
+/-- **updating the current variant changes only the fields named on the line**: a field of the held variant that the
+line does not name is still there with its old value; the variant is the same -/
+theorem optsub_update_same_variant_frame (schema : Bytes → List Bytes) (v : SubVal) (l : SubLine)
+    (hsame : v.name = l.name) (f : Bytes) (x : Option Bytes) (h : (f, x) ∈ v.fields) (hn : lookupGiven l f = none) :
+    ∃ v', updateOptSub schema (some v) (some l) = .ok (some v') ∧ v'.name = v.name ∧ (f, x) ∈ v'.fields := by
+  refine ⟨mergeSub v l, ?_, rfl, lookup_mergeSub v l f x h hn⟩
+  simp [updateOptSub, optSubMergesExisting, updateSub, hsame]
+
+/-- ... and a field the line does name takes the line's value -/
+theorem optsub_update_named_field (schema : Bytes → List Bytes) (v : SubVal) (l : SubLine)
+    (hsame : v.name = l.name) (f : Bytes) (x : Option Bytes) (y : Bytes) (h : (f, x) ∈ v.fields) (hy : lookupGiven l f = some y) :
+    ∃ v', updateOptSub schema (some v) (some l) = .ok (some v') ∧ (f, some y) ∈ v'.fields := by
+  refine ⟨mergeSub v l, by simp [updateOptSub, optSubMergesExisting, updateSub, hsame], ?_⟩
+  unfold mergeSub
+  simp only [List.mem_map]
+  exact ⟨(f, x), h, by simp [hy]⟩
+
+/-- naming another variant (or any variant while the field is `None`) builds that variant from the line -/
+theorem optsub_update_switch (schema : Bytes → List Bytes) (cur : Option SubVal) (l : SubLine)
+    (hother : ∀ v, cur = some v → v.name ≠ l.name) :
+    updateOptSub schema cur (some l) = .ok (some (buildSub schema l)) := by
+  cases cur with
+  | none => rfl
+  | some v =>
+    have := hother v rfl
+    simp [updateOptSub, optSubMergesExisting, updateSub, this]
+
+example : updateOptSub (fun _ => [[97], [98]]) (some ⟨[120], [([97], some [49]), ([98], some [50])]⟩) (some ⟨[120], [([97], [53])]⟩)
+    = .ok (some ⟨[120], [([97], some [53]), ([98], some [50])]⟩) := by rfl
+
 end Clap.C15
